@@ -1,9 +1,9 @@
 package main
 
 import (
-	"crypto/md5"
 	"bufio"
 	"bytes"
+	"crypto/md5"
 	"errors"
 	"fmt"
 	"math/rand"
@@ -329,11 +329,8 @@ func genBigImport(r *rand.Rand, tier, id string) Case {
 // batches included) and a sample of the other calls
 func genBigFaultImport(r *rand.Rand, tier, id string) Case {
 	c := Case{ID: id, Kind: "m1", Params: []string{"iv=-"}, Cfgs: []string{"cache=1000,fast=false,flush=100000,sync=false,backend=memdb,wrap=true"}}
-	n := 5050
-	for i := 0; i < n; i++ {
-		c.Ops = append(c.Ops, []string{"set", hx([]byte(fmt.Sprintf("key%06d", r.Intn(1<<20)))), hx([]byte(strconv.Itoa(i)))})
-	}
-	c.Ops = append(c.Ops, []string{"save"}, []string{"fault", "import", "1"})
+	// 5050 leaves: two batches (one background batch in flight at Commit); 10050: three batches
+	c.Ops = append(c.Ops, []string{"fault", "bigimport", "5050"}, []string{"fault", "bigimport", "10050"})
 	return c
 }
 
